@@ -1,4 +1,5 @@
 import TinodeVerif.Driver.C05
+import TinodeVerif.Driver.C04
 /-!
 Line-protocol driver. Usage:
   driver model    < ops.txt        > model.out     one output line per op line
@@ -13,6 +14,7 @@ def modelLine (line : String) : String :=
   | w :: _ =>
     let r :=
       if w.startsWith "acs." then Driver.C05.model ws
+      else if w.startsWith "rng." then Driver.C04.model ws
       else none
     match r with
     | some s => s
@@ -28,6 +30,7 @@ def verdictLine (line : String) : String :=
     | w :: _ =>
       let r :=
         if w.startsWith "acs." then Driver.C05.verdict ws os
+        else if w.startsWith "rng." then Driver.C04.verdict ws os
         else some true
       match r with
       | some true => "ok"
@@ -38,7 +41,7 @@ def verdictLine (line : String) : String :=
 partial def loop (h : IO.FS.Stream) (out : IO.FS.Stream) (f : String → String) : IO Unit := do
   let line ← h.getLine
   if line.isEmpty then return ()
-  let l := if line.endsWith "\n" then line.dropRight 1 else line
+  let l := if line.endsWith "\n" then (line.dropEnd 1).toString else line
   out.putStrLn (f l)
   loop h out f
 
